@@ -27,7 +27,8 @@
 (* flows even: a level never equals a threshold and a back-track quotient  *)
 (* is never an integer, so every outcome is determined.                    *)
 (* Scenario record (IOEnv.SCN, JSON):                                      *)
-(*   id H Rs steps init st0[k] env[j] = [fin[k], dout]                     *)
+(*   id H Rs steps init st0[k] env[j] = [fin[k], dout]  (env = <<>>: the   *)
+(*   environment is free and TLC explores every choice per interval)       *)
 (*   ctl[i]   = [kind "time"|"level", rel, thr, link, val, prio]           *)
 (*   rules[i] = [cond, then, else (sequences of [link, val]), prio]        *)
 (*   cond     = [op "atom", t "time"|"level", rel, thr] | [op and/or, a, b]*)
@@ -38,8 +39,9 @@ VARIABLES scn, now, prevT, first, ri,
           level, prevLevel, q,
           last,          \* TankLevelCondition._last_value of every level control (index of ctl; 0 for time controls)
           st,            \* user status of the supply links
-          trial, pc, rows
-vars == <<scn, now, prevT, first, ri, level, prevLevel, q, last, st, trial, pc, rows>>
+          trial, pc, rows,
+          env            \* the environment so far: one [fin, dout] per hydraulic interval already entered
+vars == <<scn, now, prevT, first, ri, level, prevLevel, q, last, st, trial, pc, rows, env>>
 Scenarios == JsonDeserialize(IOEnv.SCN)
 ctl == scn.ctl
 Links == DOMAIN scn.st0
@@ -117,6 +119,7 @@ Init == /\ scn \in {Scenarios[k] : k \in DOMAIN Scenarios}
         /\ last = [i \in DOMAIN scn.ctl |-> scn.init]
         /\ st = scn.st0
         /\ trial = 0 /\ pc = "presolve" /\ rows = <<>>
+        /\ env = scn.env              \* <<>> = free environment: TLC chooses every interval's flows (adversary)
 
 Presolve ==
   /\ pc = "presolve"
@@ -126,13 +129,17 @@ Presolve ==
          /\ level' = LevelAt(x.now)
          /\ last' = [i \in DOMAIN ctl |-> IF ctl[i].kind = "level" THEN v ELSE last[i]]
   /\ trial' = 0 /\ pc' = "solve"
-  /\ UNCHANGED <<scn, prevT, first, prevLevel, q, rows>>
+  /\ UNCHANGED <<scn, prevT, first, prevLevel, q, rows, env>>
 
 Inflow(e) == LET RECURSIVE Sum(_)
                  Sum(k) == IF k = 0 THEN 0 ELSE Sum(k - 1) + (IF st[k] = 1 THEN e.fin[k] ELSE 0)
              IN  Sum(Len(scn.st0))
+\* the flows of a hydraulic interval are fixed when the interval is first entered and stay for its partial steps
+EnvChoices == {[fin |-> f, dout |-> d] : f \in [Links -> {2, 4}], d \in {0, 4, 6}}
 Solve == /\ pc = "solve"
-         /\ LET e == scn.env[(now \div scn.H) + 1] IN q' = Inflow(e) - e.dout
+         /\ LET j == (now \div scn.H) + 1 IN
+            IF j <= Len(env) THEN q' = Inflow(env[j]) - env[j].dout /\ env' = env
+            ELSE \E e \in EnvChoices : q' = Inflow(e) - e.dout /\ env' = Append(env, e)
          /\ pc' = "postsolve"
          /\ UNCHANGED <<scn, now, prevT, first, ri, level, prevLevel, last, st, trial, rows>>
 
@@ -152,7 +159,7 @@ PostSolve ==
                  /\ now' = ((now + scn.H) \div scn.H) * scn.H
                  /\ pc' = IF now' > scn.steps * scn.H THEN "done" ELSE "presolve"
                  /\ UNCHANGED <<st, trial, level, q>>
-  /\ UNCHANGED <<scn, ri>>
+  /\ UNCHANGED <<scn, ri, env>>
 
 Next == Presolve \/ Solve \/ PostSolve
 Spec == Init /\ [][Next]_vars
